@@ -109,7 +109,7 @@ def run(ctx):
                          "\\\\uXXXX escapes must get the same verdict; non-trivial = schema with >= 2 annotated nodes")
     ctx.assumptions += ["intrinsic oracle (equality across spellings); document half: Text/Unquote.v (escape spellings) and Json grammar (blanks, member order) are modelled and proved; schema half: intrinsic oracle only (the schema scanner is not modelled): partial"]
     groups = []
-    n = 600 if quick else 12000
+    n = 2000 if quick else 12000
     for _ in range(n):
         w = J.rand_rule_schema(rng, rng.randint(1, 4))
         docs = []
